@@ -96,6 +96,31 @@ async def scenario(world: WorldA) -> None:
                 for j in range(op["n"]):
                     pos = (op["a"] >> (3 * j)) % 1023
                     ch.append((pos, struct.pack(">H", (op["b"] >> j) & 0xFFFF)))
+                if op["n"] >= 2 and op["b"] % 3 == 0:
+                    # one message that speaks about the same position twice, with an overlapping record in between (the value changed twice
+                    # before the spa flushed its change list): the records take effect one after the other, in the order of the message
+                    p0 = min(ch[0][0], 1021)
+                    ch = [(p0, ch[0][1]), (p0 + 1, ch[1][1])] + ch[2:] + [(p0, struct.pack(">H", (op["b"] >> 7) & 0xFFFF))]
+                    res.probe("message_repeats_a_position")
+                    pr0 = spa._protocol
+                    busy0 = pr0 is None or pr0.Lock.locked() or any(not t.done() for t in refreshes)
+                    mark0 = len(world.net.history)
+                    emit(ch)
+                    if res.faultfree and not busy0:
+                        try:
+                            await world.quiesce(extra_idle=0.3, cap=60.0, queues=[pr0.queue])
+                        except HarnessError:
+                            continue
+                        # (a refresh asked for meanwhile carries a snapshot that may be older than the message: not judged then)
+                        if any(r.verb == "STATU" and r.src[0] != sysm.peer.ip for r in world.net.history[mark0:]):
+                            continue
+                        want = model.structure.status_block[p0:p0 + 3]
+                        got = spa.struct.status_block[p0:p0 + 3]
+                        if got != want and man.facade is not None and man.facade.spa is spa:
+                            world.violate(PROP, "update-not-applied", f"op#{i}: one message with the records {[(p, d.hex()) for p, d in ch]} (fault-free network): one second "
+                                          f"later the client holds {got.hex()} at {p0}..{p0 + 2}, the spa {want.hex()}: the records did not take effect one after "
+                                          f"the other in the order of the message", sig="update-not-applied:position-repeated-in-one-message")
+                    continue
                 emit(ch)
             elif k == "statp_item":
                 # aim at an item: its own position, one byte before (straddles a 2-byte item) or one after
@@ -287,7 +312,7 @@ ASSUMPTIONS = [
     "for temperature items 'changed' means the stored word changed; the passed values are only required to differ",
     "coverage of update geometries is measured (probe table), not asserted",
 ]
-PROBES = ["same_message_again_after_a_refresh", "observer_writes_another_item_during_the_update", "update_nested_inside_an_update", "temperature_creeps_by_a_raw_unit", "temperature_unit_flipped", "refresh_judged_as_one_update", "observer_blocked_in_callback", "unwatch_from_client_thread", "unwatch_all_from_client_thread", "registration_changed_during_an_update", "several_observers_on_one_item", "reentrant_unwatch_all", "reentrant_unwatch_self", "reentrant_unwatch_next", "reentrant_swap_next", "update_aimed_at_item", "straddling_update_notified", "silent_although_bytes_changed", "duplicate_update", "a_b_a", "watched_twice", "unwatched", "unwatch_all"]
+PROBES = ["same_message_again_after_a_refresh", "message_repeats_a_position", "observer_writes_another_item_during_the_update", "update_nested_inside_an_update", "temperature_creeps_by_a_raw_unit", "temperature_unit_flipped", "refresh_judged_as_one_update", "observer_blocked_in_callback", "unwatch_from_client_thread", "unwatch_all_from_client_thread", "registration_changed_during_an_update", "several_observers_on_one_item", "reentrant_unwatch_all", "reentrant_unwatch_self", "reentrant_unwatch_next", "reentrant_swap_next", "update_aimed_at_item", "straddling_update_notified", "silent_although_bytes_changed", "duplicate_update", "a_b_a", "watched_twice", "unwatched", "unwatch_all"]
 N_QUICK = 1020
 
 
